@@ -478,6 +478,12 @@ impl<'a> Socket<'a> {
         if self.endpoint.port != repr.dst_port {
             return false;
         }
+        // A socket bound to an address only takes datagrams of that address family.
+        if let Some(addr) = self.endpoint.addr
+            && addr.version() != ip_repr.dst_addr().version()
+        {
+            return false;
+        }
         if self.endpoint.addr.is_some()
             && self.endpoint.addr != Some(ip_repr.dst_addr())
             && !cx.is_broadcast(&ip_repr.dst_addr())
